@@ -102,7 +102,7 @@ Definition plain_of (hs : list hfacts) (o : op) : bool :=
 (* nodes.Struct.Outdated: the recorded versions against the current ones, element by element *)
 Definition stale_by_list (recorded current : list N) : bool := negb (list_eqb N.eqb recorded current).
 
-(* the folded variant: stamp = fold (fun s v => s<<sh xor v) *)
-Definition fold_stamp (sh : N) (vs : list N) : N := fold_left (fun s v => N.lxor (N.shiftl s sh) v) vs 0%N.
-Definition stale_by_stamp (sh : N) (recorded current : list N) : bool :=
-  negb (N.eqb (fold_stamp sh recorded) (fold_stamp sh current)).
+(* the folded variant: stamp = fold (fun s v => s<<sh xor v) from the seed s0 (e.g. the number of dependencies) *)
+Definition fold_stamp (sh s0 : N) (vs : list N) : N := fold_left (fun s v => N.lxor (N.shiftl s sh) v) vs s0.
+Definition stale_by_stamp (sh s0 : N) (recorded current : list N) : bool :=
+  negb (N.eqb (fold_stamp sh s0 recorded) (fold_stamp sh s0 current)).
